@@ -8,6 +8,7 @@ use std::rc::Rc;
 use std::sync::Arc;
 use std::thread;
 
+use crate::coroutine_impl::{current_cancel_data, is_coroutine};
 use crate::coroutine_impl::{spawn_builder, Builder, Coroutine};
 use crate::join::JoinHandle;
 use crate::sync::AtomicOption;
@@ -48,7 +49,22 @@ impl JoinState {
         let mut state = JoinState::Joined;
         mem::swap(self, &mut state);
         if let JoinState::Running(handle) = state {
+            // wait with the cancel disabled, or a canceled owner would leave
+            // the scope while the child is still running
+            let cancel = if is_coroutine() {
+                Some(current_cancel_data())
+            } else {
+                None
+            };
+            if let Some(c) = cancel {
+                c.disable_cancel();
+            }
             let res = handle.join();
+            if let Some(c) = cancel {
+                c.enable_cancel();
+                // the child is done, now the pending cancel can take effect
+                c.check_cancel();
+            }
 
             // TODO: when panic happened, the logic need to refine
             if !thread::panicking() {
